@@ -22,6 +22,7 @@ func init() {
 			{ID: "C15.4", Desc: "an operation that reported its timeout publishes nothing afterwards (rename / remove under a gate the timeout closes)", Run: func(c *Ctx) { ruleAbandonedNotPublished(c, "C15.4") }, MinSites: 1},
 			{ID: "C15.5", Desc: "Get reads the whole file", Run: func(c *Ctx) { ruleGetReadsWholeFile(c, "C15.5") }, MinSites: 1},
 			{ID: "C15.6", Desc: "temporary names are unique across the connections of a process", Run: func(c *Ctx) { ruleTempNameProcessWide(c, "C15.6") }, MinSites: 1},
+			{ID: "C15.7", Desc: "a stored entry whose body ends early is unreadable (no truncated response is served)", Run: func(c *Ctx) { ruleStoredBodyComplete(c, "C15.7") }, MinSites: 1},
 		},
 	})
 }
